@@ -347,6 +347,29 @@ def run(tier, seed, replay=None):
                                  "" if got != S else " with different content"),
                                  {"kind": "failing-input", "io": [splice, 65536], "stalled_reader_size": S, "upload": upload, "received": got})
                 dist["stalled-%s-%s" % ("origin" if upload else "client", "splice" if splice else "buffered")] = len(res)
+    # ---- a one-way upload that lasts longer than the idle period (2 s here, 600 s by default): the tunnel carries data all
+    #      the time, every byte must arrive -----------------------------------------------------------------------------
+    if not replay:
+        import halfclose_cases as hc
+        for splice in (True, False):
+            lp_ = e2e.free_port()
+            px = e2e.Proxy(driver, [{"name": "http", "bind": "%s:%d" % (LOOP, lp_)}], [{"name": "direct"}], [{"target": "direct"}], timeouts={"idle": 2, "udp": 2},
+                           io={"useSplice": splice, "bufferSize": 65536}, metrics=False, name="c01-long-%s" % ("s" if splice else "b"))
+            o_read = e2e.Server(hc.read_all_origin)
+            try:
+                px.start()
+                h = hc.upload_longer_than_idle(lp_, o_read, 12, 0.4)
+            finally:
+                px.stop()
+                o_read.close()
+                import shutil
+                shutil.rmtree(px.dir, ignore_errors=True)
+            total += 1
+            dist["upload-longer-than-idle-%s" % ("splice" if splice else "buffered")] = 1
+            if not h["intact"]:
+                rep.fail("C01: %s mode, idle period 2 s: the client sent %d bytes, 16 every %.1fs, to an origin that only reads: %d arrived (%s)" % (
+                    "splice" if splice else "buffered", h["want"], h["gap"], h["got"], h["error"] or "the tunnel was cut"),
+                    {"kind": "failing-input", "io": [splice, 65536], "scenario": h})
     rep.coverage.update({
         "evaluations": total,
         "distinct_nontrivial": len(shapes),
